@@ -287,8 +287,11 @@ func (app *App) addPrefixToRoute(prefix string, route *Route) *Route {
 	route.Path = prefixedPath
 	route.path = RemoveEscapeChar(prettyPath)
 	route.routeParser = parseRoute(prettyPath, app.customConstraints...)
-	route.root = false
-	route.star = false
+	// the prefix may contribute parameters and changes what the whole path is: derive the
+	// parameter names and the root/star shortcuts from the prefixed path, as register does
+	route.Params = parseRoute(prefixedPath, app.customConstraints...).params
+	route.root = route.path == "/"
+	route.star = route.path == "/*"
 
 	return route
 }
